@@ -164,6 +164,7 @@ type rendered struct {
 	exact   bool
 	needVar bool // uses %iN
 	needIdf bool // uses idf()
+	loc     string // the location the path was spelled for (empty: the path denotes a whole list)
 }
 
 // render spells the location l of g.cur. whole: leave the last list step unselected (insert).
@@ -203,7 +204,7 @@ func (g *c18Gen) render(l loc, whole bool) rendered {
 			if last && whole {
 				s += "." + name
 			} else {
-				sel, exact := g.selector(list, st.idx, fd.Message().Name() == "Extension")
+				sel, exact := g.selector(list, st.idx, fd.Message().Name() == "Extension" && fd.Name() == "extension") // (extension(url) does not look into modifierExtension)
 				if strings.HasPrefix(sel, "\x00ext:") {
 					s += ".extension(" + fpString(sel[5:]) + ")"
 				} else {
@@ -247,6 +248,9 @@ func (g *c18Gen) render(l loc, whole bool) rendered {
 		s = "iif(true, " + s + ")"
 	}
 	out.path = s
+	if !whole {
+		out.loc = l.String()
+	}
 	return out
 }
 
@@ -415,6 +419,10 @@ func notWrapperItself(m proto.Message, l loc) bool {
 
 func (g *c18Gen) decorate(op *C18Op, rd rendered) (expectOK bool) {
 	expectOK = rd.exact
+	if rd.exact && rd.loc != "" && op.Path == rd.path {
+		// the path was spelled for one location of the resource as it is now: that is what it denotes
+		op.Want, op.State = rd.loc, digest(string(msgBytes(g.cur)))
+	}
 	if rd.needIdf {
 		op.COpts = append(op.COpts, COpt{Kind: "fn", Name: "idf", Fn: "ident"})
 	}
